@@ -384,6 +384,51 @@ def run(prop, tier, seed, replay):
                 rep.violation(name, {'kind': 'property-violation-on-implementation', 'format': fmt, 'corruption': kind,
                                      'what': what, 'must_raise': must_raise, 'text': text}, found_input=found)
 
+        # inputs that are rejected before the first token is read: a path that does not exist, a directory, an empty
+        # file, a zip archive whose member has another name - under both start policies, for every reader
+        for fmt in ('edif', 'verilog', 'eblif'):
+            ext = DIRS[fmt][1]
+            base = os.path.join(tmpdir, 'unreadable')
+            os.makedirs(base, exist_ok=True)
+            inputs = [('missing', os.path.join(base, 'nosuch' + ext))]
+            dpath = os.path.join(base, 'adir' + ext)
+            os.makedirs(dpath, exist_ok=True)
+            inputs.append(('directory', dpath))
+            epath = os.path.join(base, 'empty' + ext)
+            open(epath, 'w').close()
+            inputs.append(('empty', epath))
+            zpath = os.path.join(base, 'arch' + ext + '.zip')
+            with zipfile.ZipFile(zpath, 'w') as z:
+                z.writestr('other_name.txt', TINY[fmt])
+            inputs.append(('zip-other-member', zpath))
+            zplain = os.path.join(base, 'plainzip' + ext)
+            shutil.copy(zpath, zplain)
+            inputs.append(('zip-bytes-under-plain-name', zplain))
+            for what, path in inputs:
+                for start_pol in ('DEFAULT', 'EDIF'):
+                    total += 1
+                    sdn.namespace_manager.default = start_pol
+                    signal.signal(signal.SIGALRM, _alarm)
+                    signal.setitimer(signal.ITIMER_REAL, B['timeout'])
+                    try:
+                        sdn.parse(path)
+                        out = 'returned'
+                    except Timeout:
+                        out = 'timeout'
+                    except BaseException as e:  # noqa
+                        if isinstance(e, KeyboardInterrupt):
+                            raise
+                        out = 'raised:' + type(e).__name__
+                    finally:
+                        signal.setitimer(signal.ITIMER_REAL, 0)
+                    hist['%s/unreadable-%s/%s' % (fmt, what, out.split(':')[0])] += 1
+                    after = sdn.namespace_manager.default
+                    if after != start_pol:
+                        fail('%s-unreadable-%s-policy' % (fmt, what), fmt, path, 'unreadable:' + what,
+                             'naming policy was %s before the call and %s after (%s)' % (start_pol, after, out))
+                    if out == 'timeout':
+                        fail('%s-unreadable-%s-hang' % (fmt, what), fmt, path, 'unreadable:' + what, 'reader did not terminate')
+        sdn.namespace_manager.default = 'DEFAULT'
         edif_tie = []
         for fmt in ('edif', 'verilog', 'eblif'):
             for name, text in sources(fmt, B['files'], B['max_bytes']):
